@@ -19,7 +19,8 @@ class TupSub(tuple):
     pass
 
 
-def make_class(tr, name='K'):
+def make_class(tr, name='K', base=None):
+    """base: a real namedtuple class to derive from (traits marked 'absent' are then inherited from it)"""
     ns = {}
     f = tr['fields']
     if f == 'tuple_of_str':
@@ -37,7 +38,7 @@ def make_class(tr, name='K'):
             ns[attr] = classmethod(lambda cls, *a: None) if attr == '_make' else (lambda self: {})
         elif tr[key] == 'noncallable':
             ns[attr] = 42
-    return type(name, (tuple,) if tr['tuplesub'] else (), ns)
+    return type(name, (base,) if base is not None else (tuple,) if tr['tuplesub'] else (), ns)
 
 
 def answers(cls):
@@ -84,6 +85,25 @@ def classes_main(outp, histp):
             except Exception:   # noqa: BLE001
                 pass
         cases.append({'op': 'classify', 'traits': tr, 'ans': ans})
+    # (1b) look-alikes deriving from a REAL namedtuple class and overriding some traits; the verdict is a function of the class's
+    # own (effective) traits, whether or not its parent has been classified before
+    import collections
+    for parent_first, f, m, a in itertools.product([False, True], FIELDS, ATTR, ATTR):
+        P = collections.namedtuple('P', 'a b')
+        if parent_first:
+            optree.is_namedtuple_class(P), optree.tree_structure(P(1, 2))
+        tr = {'tuplesub': True, 'fields': f, 'make': m, 'asdict': a}
+        cls = make_class(tr, 'L', base=P)
+        eff = {'tuplesub': True, 'fields': 'tuple_of_str' if f == 'absent' else f, 'make': 'callable' if m == 'absent' else m,
+               'asdict': 'callable' if a == 'absent' else a}
+        ans = answers(cls)
+        try:
+            inst = cls(1, 2)
+            ans['instance'] = [bool(optree.is_namedtuple_instance(inst)), bool(optree.is_namedtuple_instance.__python_implementation__(inst)),
+                               int(optree.tree_structure(inst).kind) == 6]
+        except Exception:   # noqa: BLE001
+            pass
+        cases.append({'op': 'classify', 'traits': eff, 'ans': ans, 'derived_from_namedtuple': True, 'parent_classified_first': parent_first})
     # real classes
     real = {'namedtuple': U.NT2, 'namedtuple-subclass': type('Sub', (U.NT2,), {}), 'typing.NamedTuple': __import__('typing').NamedTuple('TN', [('a', int)]),
             'structseq': os.terminal_size, 'structseq2': type(sys.flags), 'structseq3': __import__('time').struct_time, 'stat_result': os.stat_result,
